@@ -67,6 +67,21 @@ pub fn execute(
     info: MessageInfo,
     msg: ExecuteMsg,
 ) -> Result<Response, ContractError> {
+    // Only messages that deposit into a Listing or Bucket may carry funds
+    // (the Receive wrappers reject funds themselves)
+    let takes_funds = matches!(
+        msg,
+        ExecuteMsg::CreateListing { .. }
+            | ExecuteMsg::AddToListing { .. }
+            | ExecuteMsg::CreateBucket { .. }
+            | ExecuteMsg::AddToBucket { .. }
+            | ExecuteMsg::Receive(_)
+            | ExecuteMsg::ReceiveNft(_)
+    );
+    if !takes_funds && !info.funds.is_empty() {
+        return Err(ContractError::GenericError("This message does not accept funds".to_string()));
+    }
+
     match msg {
         ExecuteMsg::FeeCycle {} => execute_cycle_fee(deps, env),
 
